@@ -16,8 +16,23 @@
   evaluation gives a guess ≥ 1, `to_f64` is finite below 2^1023); u64 overflow in the bit-count
   arithmetic is not modelled.  With a guess of 0 the code divides by zero (`guess_zero_panics`), so
   `g ≥ 1` is exactly the assumption needed.
+
+  LAYER LINK (last section, theorems `…_D`): NB.Model.RootsD transcribes the same functions on digit
+  vectors, every BigUint operator being the digit-level operator model (cmp_slice, bits, `<<`, `>>`,
+  div_rem_ref, mulRef/mulAssign inside `pow`, scalar_mul, `+=`, div_rem_digit, to_u64), panics propagated.
+  `roots_refine` / `bigint_roots_refine`: for canonical inputs (and `SizeOk`: fewer than 2^64 digits, the
+  hypothesis under which `<<` cannot hit "capacity overflow"), every degree `n ≤ 2^64` (all of u32) and all
+  parameter records with `P.ValidMul` (`gen_params_valid_mul` for the extracted ones) the digit-level
+  functions return `(value-level function of the value).map ofNat` — same panics, canonical digits of the
+  same number — for every pair of guess sources related by `SrcRefines`; `nostd_src_refines` and
+  `std_src_refines` relate the two configurations' sources.  Hence all statements above transfer:
+  `nth_root_spec_D`, `sqrt_spec_D`, `cbrt_spec_D`, `std_root_spec_D`, `nostd_root_spec_D`,
+  `root_config_independent_D`, `bigint_*_spec_D`.  The driver's model column runs these `…D` functions.
+  Still value-level inside RootsD: num-integer's u64 roots (`floorRoot`), the abstract float evaluation
+  (applied to `val x`), the u64 bit-count arithmetic, and the fuel.
 -/
 import NB.Lemmas.Roots
+import NB.Lemmas.RootsD
 namespace NB
 open NB.Roots NB.IntVal
 
@@ -224,5 +239,191 @@ example : nthRootG (stdSrc exampleF64 2) (2 ^ 3000 + 12345) 7 = nthRootG nostdSr
   (root_config_independent exampleF64_valid 2 _ 7 (le_refl 2)).1
 
 example : (17 : Nat) ^ 5 ≤ 1500000 ∧ 1500000 < (17 + 1) ^ 5 := by decide
+
+/-! ## Layer link: the digit-level model NB.Model.RootsD refines the value-level model -/
+
+section LayerLink
+open NB.RootsD
+
+/-- `s.pow(e)` as coded (`pow_impl!` with digit-level `&base * &base`, `acc *= &base`) -/
+theorem pow_digits_spec (P : Params) (hP : P.ValidMul) {s : List Nat} (hs : Canon s) (e : Nat) :
+    powRVD P s e = .ok (ofNat (val s ^ e)) := by
+  have := powRVD_spec P hP (val s) e
+  rwa [← canon_eq_ofNat hs] at this
+
+/-- the three closures on digits compute what the value-level closures compute (same panics) -/
+theorem root_steps_refine (P : Params) (hP : P.ValidMul) {x s : List Nat} (hx : Canon x) (hs : Canon s)
+    {n : Nat} (hn : n ≤ B) :
+    stepNthD P x n s = (stepNth (val x) n (val s)).map ofNat ∧
+    stepSqrtD P x s = (stepSqrt (val x) (val s)).map ofNat ∧
+    stepCbrtD P x s = (stepCbrt (val x) (val s)).map ofNat := by
+  have a := stepNthD_refines P hP (val x) n hn (val s)
+  have b := stepSqrtD_refines P (val x) (val s)
+  have c := stepCbrtD_refines P hP (val x) (val s)
+  rw [← canon_eq_ofNat hx, ← canon_eq_ofNat hs] at a b c
+  exact ⟨a, b, c⟩
+
+/-- `fixpoint` on digits = `fixpoint` on values for every closure pair related on canonical digits,
+    every fuel and every guess (`max_bits` small enough for `1 << max_bits` not to overflow capacity) -/
+theorem fixpoint_refines {fD : List Nat → Except Panic (List Nat)} {f : Nat → Except Panic Nat}
+    (hf : ∀ v, fD (ofNat v) = (f v).map ofNat) {g : List Nat} (hg : Canon g) (mb fuel : Nat)
+    (hmb : mb / C07.BITS < C07.USIZE_RANGE) :
+    fixpointD fuel g mb fD = (fixpoint fuel (val g) mb f).map ofNat := by
+  have := fixpointD_refines hf mb hmb fuel (val g)
+  rwa [← canon_eq_ofNat hg] at this
+
+/-- `n_min_1 * s + q` and `(s << 1) + q` are `BigUint + BigUint` by value: the Rust forwarding macro
+    keeps the operand with the larger `capacity()` and adds the other one to it.  Capacity is not
+    modelled (RootsD always keeps the left operand); this is immaterial: either choice yields the
+    same digit vector. -/
+theorem add_operand_choice_irrelevant (P : Params) {a b : List Nat} (ha : Canon a) (hb : Canon b) :
+    addAssign P a b = addAssign P b a := by
+  rw [addAssign_spec P a b ha hb, addAssign_spec P b a hb ha, Nat.add_comm]
+
+theorem nostd_src_refines : SrcRefines nostdSrcD nostdSrc := nostd_refines
+
+theorem std_src_refines (P : Params) (hP : P.ValidMul) (Fl : F64) (d : Nat) :
+    SrcRefines (stdSrcD P Fl d) (stdSrc Fl d) := std_refines P hP Fl d
+
+/-- **the layer link**: on canonical digits the digit-level root functions return the canonical
+    digits of what the value-level functions return, with the same panics -/
+theorem roots_refine (P : Params) (hP : P.ValidMul) {SD : GuessSrcD} {S : GuessSrc} (hS : SrcRefines SD S)
+    {x : List Nat} (hx : Canon x) (hlen : SizeOk x) {n : Nat} (hn : n ≤ B) :
+    nthRootD P SD x n = (nthRootG S (val x) n).map ofNat ∧
+    sqrtD P SD x = (sqrtG S (val x)).map ofNat ∧
+    cbrtD P SD x = (cbrtG S (val x)).map ofNat :=
+  ⟨nthRootD_eq P hP hS hx hlen hn, sqrtD_eq P hP hS hx hlen, cbrtD_eq P hP hS hx hlen⟩
+
+theorem bigint_roots_refine (P : Params) (hP : P.ValidMul) {SD : GuessSrcD} {S : GuessSrc} (hS : SrcRefines SD S)
+    {x : BigInt} (hx : x.Canon) (hlen : SizeOk x.mag) {n : Nat} (hn : n ≤ B) :
+    bigintNthRootD P SD x n = (bigintNthRoot S x.val n).map BigInt.ofInt ∧
+    bigintSqrtD P SD x = (bigintSqrt S x.val).map BigInt.ofInt ∧
+    bigintCbrtD P SD x = (bigintCbrt S x.val).map BigInt.ofInt :=
+  ⟨bigintNthRootD_eq P hP hS hx hlen hn, bigintSqrtD_eq P hP hS hx hlen, bigintCbrtD_eq P hP hS hx hlen⟩
+
+/-! ### the C11 statements, transferred to the digit-level model -/
+
+theorem nth_root_eq_D (P : Params) (hP : P.ValidMul) {SD : GuessSrcD} {S : GuessSrc} (hS : SrcRefines SD S)
+    {x : List Nat} (hx : Canon x) (hlen : SizeOk x) {n : Nat} (hn : 1 ≤ n) (hnB : n ≤ B)
+    (h2 : SqrtOk S (val x)) (h3 : CbrtOk S (val x)) (h4 : NthOk S (val x) n) :
+    nthRootD P SD x n = .ok (ofNat (Nat.nthRoot n (val x))) := by
+  rw [nthRootD_eq P hP hS hx hlen hnB, nthRootG_ok hn h2 h3 h4]; rfl
+
+/-- C11 main statement on digits: `n ≥ 1 → r^n ≤ x < (r+1)^n` for EVERY admissible guess source -/
+theorem nth_root_spec_D (P : Params) (hP : P.ValidMul) {SD : GuessSrcD} {S : GuessSrc} (hS : SrcRefines SD S)
+    {x : List Nat} (hx : Canon x) (hlen : SizeOk x) {n : Nat} (hn : 1 ≤ n) (hnB : n ≤ B)
+    (h2 : SqrtOk S (val x)) (h3 : CbrtOk S (val x)) (h4 : NthOk S (val x) n) :
+    ∃ r, nthRootD P SD x n = .ok r ∧ Canon r ∧ val r ^ n ≤ val x ∧ val x < (val r + 1) ^ n := by
+  refine ⟨_, nth_root_eq_D P hP hS hx hlen hn hnB h2 h3 h4, ofNat_canon _, ?_, ?_⟩ <;> rw [ofNat_val]
+  · exact Nat.pow_nthRoot_le (.inl (by omega))
+  · exact Nat.lt_pow_nthRoot_add_one (by omega) _
+
+theorem sqrt_spec_D (P : Params) (hP : P.ValidMul) {SD : GuessSrcD} {S : GuessSrc} (hS : SrcRefines SD S)
+    {x : List Nat} (hx : Canon x) (hlen : SizeOk x) (h : SqrtOk S (val x)) :
+    ∃ r, sqrtD P SD x = .ok r ∧ Canon r ∧ val r * val r ≤ val x ∧ val x < (val r + 1) * (val r + 1) := by
+  refine ⟨ofNat (Nat.nthRoot 2 (val x)), ?_, ofNat_canon _, ?_, ?_⟩
+  · rw [sqrtD_eq P hP hS hx hlen, sqrtG_ok h]; rfl
+  · rw [ofNat_val]
+    have := Nat.pow_nthRoot_le (n := 2) (a := val x) (.inl (by decide)); rwa [pow_two] at this
+  · rw [ofNat_val]
+    have := Nat.lt_pow_nthRoot_add_one (n := 2) (by decide) (val x); rwa [pow_two] at this
+
+theorem cbrt_spec_D (P : Params) (hP : P.ValidMul) {SD : GuessSrcD} {S : GuessSrc} (hS : SrcRefines SD S)
+    {x : List Nat} (hx : Canon x) (hlen : SizeOk x) (h : CbrtOk S (val x)) :
+    ∃ r, cbrtD P SD x = .ok r ∧ Canon r ∧ val r ^ 3 ≤ val x ∧ val x < (val r + 1) ^ 3 := by
+  refine ⟨ofNat (Nat.nthRoot 3 (val x)), ?_, ofNat_canon _, ?_, ?_⟩
+  · rw [cbrtD_eq P hP hS hx hlen, cbrtG_ok h]; rfl
+  · rw [ofNat_val]; exact Nat.pow_nthRoot_le (.inl (by decide))
+  · rw [ofNat_val]; exact Nat.lt_pow_nthRoot_add_one (by decide) _
+
+/-- degree 0 is rejected by the assertion before anything is computed -/
+theorem nth_root_zero_degree_D (P : Params) (SD : GuessSrcD) (x : List Nat) :
+    nthRootD P SD x 0 = .error .zeroroot := by
+  simp [nthRootD]
+
+/-- no_std configuration on digits: canonical digits of Mathlib's floor root -/
+theorem nostd_root_spec_D (P : Params) (hP : P.ValidMul) {x : List Nat} (hx : Canon x) (hlen : SizeOk x)
+    {n : Nat} (hn : 1 ≤ n) (hnB : n ≤ B) :
+    nthRootD P nostdSrcD x n = .ok (ofNat (Nat.nthRoot n (val x))) ∧
+    sqrtD P nostdSrcD x = .ok (ofNat (Nat.nthRoot 2 (val x))) ∧
+    cbrtD P nostdSrcD x = .ok (ofNat (Nat.nthRoot 3 (val x))) := by
+  obtain ⟨a, b, c⟩ := roots_refine P hP nostd_src_refines hx hlen hnB
+  obtain ⟨a', b', c'⟩ := nostd_root_spec (val x) n hn
+  rw [a, b, c, a', b', c']; exact ⟨rfl, rfl, rfl⟩
+
+/-- std configuration on digits (float arm abstract: any `Fl` with `Fl.Valid`; recursion depth ≥ 2) -/
+theorem std_root_spec_D (P : Params) (hP : P.ValidMul) {Fl : F64} (hF : Fl.Valid) {d : Nat} (hd : 2 ≤ d)
+    {x : List Nat} (hx : Canon x) (hlen : SizeOk x) {n : Nat} (hn : 1 ≤ n) (hnB : n ≤ B) :
+    nthRootD P (stdSrcD P Fl d) x n = .ok (ofNat (Nat.nthRoot n (val x))) ∧
+    sqrtD P (stdSrcD P Fl d) x = .ok (ofNat (Nat.nthRoot 2 (val x))) ∧
+    cbrtD P (stdSrcD P Fl d) x = .ok (ofNat (Nat.nthRoot 3 (val x))) := by
+  obtain ⟨a, b, c⟩ := roots_refine P hP (std_src_refines P hP Fl d) hx hlen hnB
+  obtain ⟨a', b', c'⟩ := std_root_spec hF d (val x) n hd hn
+  rw [a, b, c, a', b', c']; exact ⟨rfl, rfl, rfl⟩
+
+/-- the std / no_std clause on digits: both configurations return the same outcome for every
+    canonical x and every u32 degree (including 0, where both panic with the same class) -/
+theorem root_config_independent_D (P : Params) (hP : P.ValidMul) {Fl : F64} (hF : Fl.Valid) {d : Nat}
+    (hd : 2 ≤ d) {x : List Nat} (hx : Canon x) (hlen : SizeOk x) {n : Nat} (hnB : n ≤ B) :
+    nthRootD P (stdSrcD P Fl d) x n = nthRootD P nostdSrcD x n ∧
+    sqrtD P (stdSrcD P Fl d) x = sqrtD P nostdSrcD x ∧
+    cbrtD P (stdSrcD P Fl d) x = cbrtD P nostdSrcD x := by
+  obtain ⟨a, b, c⟩ := roots_refine P hP (std_src_refines P hP Fl d) hx hlen hnB
+  obtain ⟨a', b', c'⟩ := roots_refine P hP nostd_src_refines hx hlen hnB
+  obtain ⟨e1, e2, e3⟩ := root_config_independent hF d (val x) n hd
+  rw [a, b, c, a', b', c', e1, e2, e3]; exact ⟨rfl, rfl, rfl⟩
+
+/-- `BigInt::nth_root` on digits -/
+theorem bigint_nth_root_spec_D (P : Params) (hP : P.ValidMul) {SD : GuessSrcD} {S : GuessSrc}
+    (hS : SrcRefines SD S) {x : BigInt} (hx : x.Canon) (hlen : SizeOk x.mag) {n : Nat} (hnB : n ≤ B)
+    (h2 : SqrtOk S x.val.natAbs) (h3 : CbrtOk S x.val.natAbs) (h4 : NthOk S x.val.natAbs n) :
+    bigintNthRootD P SD x n =
+      if x.val < 0 ∧ n % 2 = 0 then .error .imaginary
+      else if n = 0 then .error .zeroroot
+      else .ok (BigInt.ofInt (Int.sign x.val * (Nat.nthRoot n x.val.natAbs : Int))) := by
+  rw [(bigint_roots_refine P hP hS hx hlen hnB).1, bigint_nth_root_spec x.val n h2 h3 h4]
+  split
+  · rfl
+  · split <;> rfl
+
+theorem bigint_sqrt_spec_D (P : Params) (hP : P.ValidMul) {SD : GuessSrcD} {S : GuessSrc}
+    (hS : SrcRefines SD S) {x : BigInt} (hx : x.Canon) (hlen : SizeOk x.mag) (h2 : SqrtOk S x.val.natAbs) :
+    bigintSqrtD P SD x =
+      if x.val < 0 then .error .imaginary else .ok (BigInt.ofInt (Nat.nthRoot 2 x.val.natAbs : Int)) := by
+  rw [(bigint_roots_refine P hP hS hx hlen (n := 2) (by decide)).2.1, bigint_sqrt_spec x.val h2]
+  split <;> rfl
+
+theorem bigint_cbrt_spec_D (P : Params) (hP : P.ValidMul) {SD : GuessSrcD} {S : GuessSrc}
+    (hS : SrcRefines SD S) {x : BigInt} (hx : x.Canon) (hlen : SizeOk x.mag) (h3 : CbrtOk S x.val.natAbs) :
+    bigintCbrtD P SD x = .ok (BigInt.ofInt (Int.sign x.val * (Nat.nthRoot 3 x.val.natAbs : Int))) := by
+  rw [(bigint_roots_refine P hP hS hx hlen (n := 3) (by decide)).2.2, bigint_cbrt_spec x.val h3]
+  rfl
+
+/-- instantiated at the parameters extracted from the source: what the driver's model column computes
+    (`stdSrcD NB.Gen.P floatF64 stdDepth`, and `nostdSrcD`) is, for every float evaluation satisfying
+    `F64.Valid`, the canonical digit vector of Mathlib's floor root -/
+theorem gen_root_spec {Fl : F64} (hF : Fl.Valid) {x : List Nat} (hx : Canon x) (hlen : SizeOk x)
+    {n : Nat} (hn : 1 ≤ n) (hnB : n ≤ B) :
+    nthRootD NB.Gen.P (stdSrcD NB.Gen.P Fl stdDepth) x n = .ok (ofNat (Nat.nthRoot n (val x))) ∧
+    nthRootD NB.Gen.P nostdSrcD x n = .ok (ofNat (Nat.nthRoot n (val x))) :=
+  ⟨(std_root_spec_D NB.Gen.P gen_params_valid_mul hF (le_refl 2) hx hlen hn hnB).1,
+   (nostd_root_spec_D NB.Gen.P gen_params_valid_mul hx hlen hn hnB).1⟩
+
+/-! ### non-vacuity -/
+
+example : Canon [5, B - 1, 7] ∧ SizeOk [5, B - 1, 7] := by
+  constructor
+  · decide
+  · unfold SizeOk; decide
+
+/-- a three-digit operand, degree 7, both configurations, at the generated parameters -/
+example : nthRootD NB.Gen.P (stdSrcD NB.Gen.P exampleF64 2) [5, B - 1, 7] 7
+    = nthRootD NB.Gen.P nostdSrcD [5, B - 1, 7] 7 :=
+  (root_config_independent_D NB.Gen.P gen_params_valid_mul exampleF64_valid (le_refl 2)
+    (by decide) (by unfold SizeOk; decide) (by decide)).1
+
+example : (⟨.minus, [0, 1]⟩ : BigInt).Canon := by decide
+
+end LayerLink
 
 end NB
